@@ -479,6 +479,12 @@ class PX:
 
     def s_Assert(self, st, fr):
         v = self.ev(st.test, fr)
+        if isinstance(v, Sym) and v.tag not in self.facts and v.tag not in self.memo:
+            # an assertion over values the abstraction cannot evaluate is taken to hold (it is a statement of belief about
+            # those values, not a branch); assertions over concrete values are evaluated and do fail
+            self.memo[v.tag] = True
+            self.assumes.append((f"assert:{v.tag}", True))
+            return
         if not self.truth(v, fr, st):
             self.emit("assert-fail", _text(st.test), node=st, frame=fr)
             raise Exc("AssertionError", (), origin=_text(st.test))
@@ -881,10 +887,14 @@ class PX:
                 for j in range(after):
                     self.assign(t.elts[si + 1 + j], seq[len(seq) - after + j], fr)
                 return
+            if isinstance(v, (Iter, _Gen, _LazyGen)) or hasattr(v, "__next__"):
+                v = _drain(v) if isinstance(v, Iter) else list(v)  # unpacking consumes the iterator (generator expression, map, ...)
+            elif isinstance(v, (set, frozenset)):
+                v = list(v)
             if isinstance(v, Sym):
                 self.emit("unpack", v.tag, (n,), node=t, frame=fr)
                 vals = [self.sym_index(v, i) for i in range(n)]
-            elif isinstance(v, (tuple, list)):
+            elif isinstance(v, (tuple, list, bytes, bytearray, str)):
                 if len(v) != n:
                     self.emit("unpack-mismatch", _text(t), (len(v), n), node=t, frame=fr)
                     raise Exc("ValueError", (f"unpack {len(v)} values into {n}",), origin=_text(t))
@@ -2252,6 +2262,8 @@ class PX:
                         a = _drain(a)
                 elif isinstance(a, Member) and n in ("int", "bool", "bytes", "abs", "min", "max", "range"):
                     a = a.value
+                elif isinstance(a, ClassRef) and a.is_enum and n in ("tuple", "list", "set", "frozenset", "sorted", "enumerate", "reversed", "len"):
+                    a = list(a.canonical_members())  # iterating an enum class yields its (canonical) members
                 pyargs.append(a)
             if all(conc(a) for a in pyargs) or n in ("tuple", "list", "dict", "enumerate", "zip", "set", "frozenset", "reversed"):
                 try:
